@@ -329,6 +329,41 @@ def run_inplace(acc):
     acc.sample({"clause": "in-place", "operations": [o[0] for o in ops]})
 
 
+def run_operator_integrity(acc):
+    """only explicitly in-place operations modify their input arrays: the OPERATOR forms (+ - * / // % ** comparisons, unary
+    minus, abs) on array quantities over every ordered pair of a unit alphabet with multiplicative, offset, delta and
+    dimensionless units leave both operands — array contents and units — exactly as they were, whether they answer or refuse"""
+    import numpy as np
+    import operator as op_
+
+    units = ["meter", "centimeter", "kelvin", "millikelvin", "degC", "degR", "delta_degC", "delta_degF", "dimensionless", "percent"]
+    ops = [("+", op_.add), ("-", op_.sub), ("*", op_.mul), ("/", op_.truediv), ("//", op_.floordiv), ("%", op_.mod), ("**", op_.pow), ("<", op_.lt), ("==", op_.eq), (">=", op_.ge)]
+    for cfg in ("default", "autoconvert"):
+        ureg = regs.default("float", autoconvert_offset_to_baseunit=True) if cfg == "autoconvert" else regs.default("float")
+        Q = ureg.Quantity
+        for ua, ub in itertools.product(units, repeat=2):
+            for on, of in ops:
+                acc.ev()
+                acc.nt(("operator-integrity", cfg, ua, ub, on))
+                a, b = Q(np.array([9.0, 18.0, 27.0]), ua), Q(np.array([300.0, 2.0, 0.5]), ub)
+                sa, sb = (a.magnitude.copy(), dict(a._units)), (b.magnitude.copy(), dict(b._units))
+                o = call(lambda: of(a, b))
+                for which, x, sx in (("left", a, sa), ("right", b, sb)):
+                    if not np.array_equal(x.magnitude, sx[0]) or dict(x._units) != sx[1]:
+                        kinds = "+".join("delta" if u.startswith("delta_") else ("offset" if u in ("degC",) else "mult") for u in (ua, ub))
+                        acc.violation(["input-integrity", on, "operator-modified-its-" + which + "-operand", kinds], {"mode": cfg, "left": ua, "right": ub, "op": on, "outcome": o[0]}, [sx[0].tolist(), sx[1]], [np.asarray(x.magnitude).tolist(), dict(x._units)])
+        for ua in units:
+            for on, of in (("neg", op_.neg), ("abs", abs), ("pos", op_.pos)):
+                acc.ev()
+                a = Q(np.array([9.0, -18.0, 27.0]), ua)
+                sa = (a.magnitude.copy(), dict(a._units))
+                call(lambda: of(a))
+                if not np.array_equal(a.magnitude, sa[0]) or dict(a._units) != sa[1]:
+                    acc.violation(["input-integrity", on, "operator-modified-its-left-operand", "unary"], {"mode": cfg, "left": ua, "op": on}, sa[0].tolist(), np.asarray(a.magnitude).tolist())
+    acc.outcome("operator-integrity")
+    acc.sample({"clause": "operator-integrity", "left": "[9, 18, 27] delta_degF", "right": "[300, 2, 0.5] kelvin", "op": "+"})
+
+
 def run_offset_auto(acc):
     """autoconvert_offset_to_baseunit: offset operands of product-like functions go through base units —
     in either operand position the result is NumPy on the kelvin magnitudes, labelled kelvin"""
@@ -381,6 +416,7 @@ def shards(tier, seed):
         for cfg in ("force_ndarray", "force_ndarray_like"):
             out += [("entries", b, 8, cfg) for b in range(8)]
     out.append(("inplace",))
+    out.append(("operator-integrity",))
     return out
 
 
@@ -391,6 +427,8 @@ def run_shard(acc, shard, tier, seed):
         run_inplace(acc)
     elif shard[0] == "offset_auto":
         run_offset_auto(acc)
+    elif shard[0] == "operator-integrity":
+        run_operator_integrity(acc)
     else:
         raise core.HarnessError(str(shard))
 
@@ -409,6 +447,8 @@ def replay(rec):
     acc = core.Acc(PROPERTY)
     if site[0] == "in-place":
         run_inplace(acc)
+    elif site[0] == "input-integrity" and site[2].startswith("operator-modified"):
+        run_operator_integrity(acc)
     elif site[0] == "offset-autoconvert" or case.get("mode"):
         run_offset_auto(acc)
     else:
